@@ -3,7 +3,7 @@ from copy import deepcopy
 from fractions import Fraction
 from xml.sax.saxutils import escape
 
-from bs4 import BeautifulSoup, NavigableString
+from bs4 import BeautifulSoup, Comment, NavigableString, ProcessingInstruction
 from bs4.formatter import XMLFormatter
 
 from ..base import (
@@ -240,6 +240,9 @@ class DFXPReader(BaseReader):
         return int(microseconds)
 
     def _convert_tag_to_node(self, tag):
+        # comments and processing instructions are not text
+        if isinstance(tag, (Comment, ProcessingInstruction)):
+            return
         # convert text
         if isinstance(tag, NavigableString):
             # strips indentation whitespace only
